@@ -47,6 +47,7 @@ type Solver struct {
 	log     io.Writer // optional transcript
 	dead    bool
 	kind    string // "z3" or "cvc5"
+	scopes  []map[int]bool  // term ids defined inside each open push scope
 	buf     strings.Builder // commands not yet sent (flushed on the first query)
 	Flushes int
 }
@@ -118,6 +119,7 @@ func (s *Solver) flush() {
 // Reset clears all assertions and definitions.
 func (s *Solver) Reset() {
 	s.defined = map[int]bool{}
+	s.scopes = nil
 	s.buf.Reset() // commands of an abandoned path that never queried
 	if s.kind == "cvc5" {
 		s.send("(reset-assertions)\n")
@@ -126,8 +128,21 @@ func (s *Solver) Reset() {
 	s.send("(reset)\n(set-option :produce-models true)\n")
 }
 
-func (s *Solver) Push() { s.send("(push 1)\n") }
-func (s *Solver) Pop()  { s.send("(pop 1)\n") }
+func (s *Solver) Push() {
+	s.send("(push 1)\n")
+	s.scopes = append(s.scopes, map[int]bool{})
+}
+
+// Pop drops the innermost scope, including the term definitions made in it.
+func (s *Solver) Pop() {
+	s.send("(pop 1)\n")
+	if n := len(s.scopes); n > 0 {
+		for id := range s.scopes[n-1] {
+			delete(s.defined, id)
+		}
+		s.scopes = s.scopes[:n-1]
+	}
+}
 
 func (s *Solver) Declare(v *Term) {
 	s.send(fmt.Sprintf("(declare-const %s %s)\n", v.name, v.sort.SMT()))
@@ -135,6 +150,22 @@ func (s *Solver) Declare(v *Term) {
 
 func (s *Solver) define(t *Term) {
 	var sb strings.Builder
+	if n := len(s.scopes); n > 0 {
+		before := make(map[int]bool, len(s.defined))
+		for id := range s.defined {
+			before[id] = true
+		}
+		t.defs(s.defined, &sb)
+		for id := range s.defined {
+			if !before[id] {
+				s.scopes[n-1][id] = true
+			}
+		}
+		if sb.Len() > 0 {
+			s.send(sb.String())
+		}
+		return
+	}
 	t.defs(s.defined, &sb)
 	if sb.Len() > 0 {
 		s.send(sb.String())
